@@ -102,7 +102,26 @@ def body_rodded(env):
             p_duct = _vec(env, 'p_duct', nduct * nd, lo=0, hi=1e7)
         t_gap = _vec(env, 'Tgap', nd, lo=200, hi=3000)
         h_gap = _vec(env, 'htc_gap', 2 if gap_len2 else nd, lo=0, hi=1e7)
-        r._calc_duct_temp(p_duct, t_gap, h_gap, adiabatic)
+        step = env.params.get('step')           # None | 'flowing' | 'stagnant': the whole real step of the region
+        if not step:
+            r._calc_duct_temp(p_duct, t_gap, h_gap, adiabatic)
+        else:
+            # the wall is solved first (old coolant levels), then interior and bypass coolant advance: what the step leaves in
+            # temp['duct_*'] must still be that wall solution
+            Tc = np.array(Tc, dtype=object if env.mode == 'sym' else float)
+            Tb_old = None if nduct == 1 else np.array(r.temp['coolant_byp'], dtype=object if env.mode == 'sym' else float)
+            r.temp['coolant_int'] = np.array(Tc, dtype=object if env.mode == 'sym' else float)
+            r._update_coolant_int_params = lambda *a_, **k_: None
+            r._update_coolant_byp_params = lambda *a_, **k_: None
+            env.stub('correlated-parameter updates of the pin bundle are no-ops during the step')
+            r._calc_coolant_int_temp = lambda dz__, qp__, qc__, ebal__=False: np.zeros(nsc)
+            r._update_coolant = lambda *a_, **k_: None           # coolant properties frozen over the step
+            env.stub('interior coolant update returns zero rise (only what the step does to the stored wall temperatures is claimed; the bypass updates are the real ones)')
+            r.ebal = {kk: (np.array(vv, dtype=object if env.mode == 'sym' else float) if hasattr(vv, 'copy') else vv) for kk, vv in r.ebal.items()}
+            if step == 'stagnant':
+                r.byp_flow_rate = np.zeros(nduct - 1)
+            qd = {'pins': np.zeros(r.n_pin), 'cool': np.zeros(nsc), 'duct': p_duct}
+            r.calculate(env.pos('dz', hi=0.01), qd, t_gap, h_gap, adiabatic, False)
         didx = r._duct_idx
         for i in range(nduct):
             for c in range(nd):
@@ -110,13 +129,13 @@ def body_rodded(env):
                     T_in = Tc[nint + c]
                     h_in = hint[1:][didx[c]]
                 else:
-                    T_in = r.temp['coolant_byp'][i - 1][c]
+                    T_in = (Tb_old if step else r.temp['coolant_byp'])[i - 1][c]
                     h_in = r.coolant_byp_params['htc'][i - 1][didx[c]]
                 if i == nduct - 1:
                     T_out = t_gap[c]
                     h_out = h_gap[didx[c]] if gap_len2 else h_gap[c]
                 else:
-                    T_out = r.temp['coolant_byp'][i][c]
+                    T_out = (Tb_old if step else r.temp['coolant_byp'])[i][c]
                     h_out = r.coolant_byp_params['htc'][i][didx[c]]
                 q = 0.0 if p_duct is None else p_duct[i * nd + c] / r.duct_params['q_area'][i, didx[c]]
                 Ts_in = r.temp['duct_surf'][i, 0, c]
@@ -188,9 +207,22 @@ def body_unrodded(env):
             # the wall solver
             r._update_coolant_params = lambda *a_, **k_: None
             env.stub('correlated-parameter update of the low-fidelity region is a no-op')
-            r.ebal = {kk: (vv.copy() if hasattr(vv, 'copy') else vv) for kk, vv in r.ebal.items()}
+            r.ebal = {kk: (np.array(vv, dtype=object if env.mode == 'sym' else float) if hasattr(vv, 'copy') else vv) for kk, vv in r.ebal.items()}
             Tc_old = np.array(np.ravel(Tc), dtype=object if env.mode == 'sym' else float)
-            r.calculate(env.pos('dz', hi=1), {'refl': env.nonneg('q_refl', hi=1e6)}, t_gap, h_gap, adiabatic, False)
+            if env.params.get('conv_approx'):
+                r._conv_approx = True
+            dz_ = env.pos('dz', hi=1)
+            tally0 = np.array(np.ravel(r.ebal['duct']), dtype=object if env.mode == 'sym' else float)
+            r.calculate(dz_, {'refl': env.nonneg('q_refl', hi=1e6)}, t_gap, h_gap, adiabatic, True)
+            if model == 'simple' and not adiabatic:
+                # unheated steady wall: what the coolant update books as heat received from the wall (per cell, over the step)
+                # is what the wall solution lets in from the gap through the outer film -- also with the low-flow approximation
+                # (coolant tied to the mid-wall through 1/h + L/2k)
+                for c in range(6):
+                    env.eq('simple cell %d: heat booked by the coolant update = outer film flux of the wall solution x contact length x step' % c,
+                           np.ravel(r.ebal['duct'])[c] - tally0[c],
+                           dz_ * r.duct_perim_over_6 * h_gap[c] * (t_gap[c] - r.temp['duct_surf'][0, 1, c]), tol=1e-9,
+                           key='coolant_and_wall_disagree_on_the_wall_flux')
             # the simple model solves its wall before advancing the coolant (old level), the six-node model after (new level)
             Tc = Tc_old if model == 'simple' else np.ravel(r.temp['coolant_int'])
         else:
@@ -228,12 +260,18 @@ def instances(tier):
             inst.append(dict(label='rodded[rings=%d,ducts=%d,adiabatic=False,htc_gap=edge/corner pair,power=%s]' % (nring, nduct, power),
                              body=body_rodded, params={'n_duct': nduct, 'n_ring': nring, 'adiabatic': False, 'gap_len2': True, 'power': power},
                              timeout_ms=120000))
+    for nduct, step in ((1, 'flowing'), (2, 'flowing'), (2, 'stagnant'), (3, 'stagnant')):
+        inst.append(dict(label='rodded-step[ducts=%d,bypass %s]' % (nduct, step), body=body_rodded,
+                         params={'n_duct': nduct, 'adiabatic': False, 'gap_len2': True, 'power': 'sym', 'step': step}, timeout_ms=120000))
     for model in ('simple', '6node'):
         for adiabatic in (False, True):
             inst.append(dict(label='unrodded[%s,adiabatic=%s]' % (model, adiabatic), body=body_unrodded,
                              params={'model': model, 'adiabatic': adiabatic}))
             inst.append(dict(label='unrodded-step[%s,adiabatic=%s]' % (model, adiabatic), body=body_unrodded,
                              params={'model': model, 'adiabatic': adiabatic, 'via_calculate': True}))
+            if not adiabatic:
+                inst.append(dict(label='unrodded-step[%s,adiabatic=False,low-flow wall approximation]' % model, body=body_unrodded,
+                                 params={'model': model, 'adiabatic': False, 'via_calculate': True, 'conv_approx': True}))
     for nd, order in ((1, (1, 0)), (2, (0, 1, 2, 3)), (2, (2, 3, 0, 1)), (3, (0, 1, 2, 3, 4, 5))):
         inst.append(dict(label='unrodded-built[walls=%d,ftf list order %s]' % (nd, ''.join(map(str, order))), body=body_unrodded,
                          params={'model': 'simple', 'adiabatic': False, 'built': (nd, order)}))
